@@ -22,6 +22,9 @@ HookSites.vos HookSites.vok HookSites.required_vos: HookSites.v Ast.vos Generate
 Hygiene.vo Hygiene.glob Hygiene.v.beautified Hygiene.required_vo: Hygiene.v Ast.vo Generated.vo Directives.vo Erase.vo
 Hygiene.vio: Hygiene.v Ast.vio Generated.vio Directives.vio Erase.vio
 Hygiene.vos Hygiene.vok Hygiene.required_vos: Hygiene.v Ast.vos Generated.vos Directives.vos Erase.vos
+JsSide.vo JsSide.glob JsSide.v.beautified JsSide.required_vo: JsSide.v SrcMap.vo
+JsSide.vio: JsSide.v SrcMap.vio
+JsSide.vos JsSide.vok JsSide.required_vos: JsSide.v SrcMap.vos
 Known.vo Known.glob Known.v.beautified Known.required_vo: Known.v Ast.vo Generated.vo
 Known.vio: Known.v Ast.vio Generated.vio
 Known.vos Known.vok Known.required_vos: Known.v Ast.vos Generated.vos
@@ -43,6 +46,9 @@ P_Hooks.vos P_Hooks.vok P_Hooks.required_vos: P_Hooks.v Ast.vos Generated.vos Co
 P_Inert.vo P_Inert.glob P_Inert.v.beautified P_Inert.required_vo: P_Inert.v Ast.vo Generated.vo Config.vo Model.vo P_OpVisit.vo
 P_Inert.vio: P_Inert.v Ast.vio Generated.vio Config.vio Model.vio P_OpVisit.vio
 P_Inert.vos P_Inert.vok P_Inert.required_vos: P_Inert.v Ast.vos Generated.vos Config.vos Model.vos P_OpVisit.vos
+P_JsSide.vo P_JsSide.glob P_JsSide.v.beautified P_JsSide.required_vo: P_JsSide.v SrcMap.vo JsSide.vo
+P_JsSide.vio: P_JsSide.v SrcMap.vio JsSide.vio
+P_JsSide.vos P_JsSide.vok P_JsSide.required_vos: P_JsSide.v SrcMap.vos JsSide.vos
 P_Kinds.vo P_Kinds.glob P_Kinds.v.beautified P_Kinds.required_vo: P_Kinds.v Ast.vo Generated.vo Config.vo Model.vo P_OpVisit.vo
 P_Kinds.vio: P_Kinds.v Ast.vio Generated.vio Config.vio Model.vio P_OpVisit.vio
 P_Kinds.vos P_Kinds.vok P_Kinds.required_vos: P_Kinds.v Ast.vos Generated.vos Config.vos Model.vos P_OpVisit.vos
@@ -94,6 +100,12 @@ Properties/C07.vos Properties/C07.vok Properties/C07.required_vos: Properties/C0
 Properties/C09.vo Properties/C09.glob Properties/C09.v.beautified Properties/C09.required_vo: Properties/C09.v SrcMap.vo P_SrcMap.vo
 Properties/C09.vio: Properties/C09.v SrcMap.vio P_SrcMap.vio
 Properties/C09.vos Properties/C09.vok Properties/C09.required_vos: Properties/C09.v SrcMap.vos P_SrcMap.vos
+Properties/C10.vo Properties/C10.glob Properties/C10.v.beautified Properties/C10.required_vo: Properties/C10.v SrcMap.vo P_SrcMap.vo
+Properties/C10.vio: Properties/C10.v SrcMap.vio P_SrcMap.vio
+Properties/C10.vos Properties/C10.vok Properties/C10.required_vos: Properties/C10.v SrcMap.vos P_SrcMap.vos
+Properties/C11.vo Properties/C11.glob Properties/C11.v.beautified Properties/C11.required_vo: Properties/C11.v SrcMap.vo P_SrcMap.vo JsSide.vo P_JsSide.vo
+Properties/C11.vio: Properties/C11.v SrcMap.vio P_SrcMap.vio JsSide.vio P_JsSide.vio
+Properties/C11.vos Properties/C11.vok Properties/C11.required_vos: Properties/C11.v SrcMap.vos P_SrcMap.vos JsSide.vos P_JsSide.vos
 Properties/C12.vo Properties/C12.glob Properties/C12.v.beautified Properties/C12.required_vo: Properties/C12.v Ast.vo Generated.vo Config.vo Model.vo P_Program.vo P_Inert.vo P_Telemetry.vo
 Properties/C12.vio: Properties/C12.v Ast.vio Generated.vio Config.vio Model.vio P_Program.vio P_Inert.vio P_Telemetry.vio
 Properties/C12.vos Properties/C12.vok Properties/C12.required_vos: Properties/C12.v Ast.vos Generated.vos Config.vos Model.vos P_Program.vos P_Inert.vos P_Telemetry.vos
